@@ -1,4 +1,5 @@
 import FxVerif.Model.C03Attest
+import FxVerif.Model.C03Addr
 import FxVerif.Model.Util
 /-! line-protocol driver for the C03 model: `lake env lean --run Driver/C03.lean < ops.txt`
 
@@ -16,7 +17,10 @@ import FxVerif.Model.Util
 * `hbt <module> <store k:v,…|-> <bt claim line>`: the regenerated statement list of `AddBridgeTokenExecuted`, interpreted;
 * `hdep <tag> <field> <dep|indep>`: a dependence of the real handlers on a field must be listed in the regenerated view;
 * `akey <nonce> <hash hex>` / `pkey <nonce>`: the bytes of `GetAttestationKey` / `GetPendingExecuteClaimKey` from the regenerated
-  layouts. -/
+  layouts;
+* `xaddr <chain> <hex text> <ck>`: `ValidateExternalAddr` / `ExternalAddrToHexAddr` / `ExternalAddrToAccAddr` of the chain's address
+  class on one text (`Model/C03Addr.lean`): tron entirely in the model (base58 decoding, the base58check checksum with the
+  executable SHA-256, the version byte dropped), eth with `ck` = the text is its own EIP-55 form (Keccak is not modelled). -/
 open FxVerif FxVerif.Util FxVerif.Model.C03
 
 def str (s : String) : Option Str := (unhex s).map (·.map Char.ofNat)
@@ -168,6 +172,14 @@ def opLine (d : DState) : List String → Option (DState × String)
     -- incomplete (correspondence break); `*` in the view = the whole claim
     let vf ← AnyClaim.viewFieldsOfTag tag
     pure (d, if finding == "indep" || vf.contains field || vf.contains "*" then "ok" else "view-misses-field")
+  | ["xaddr", chain, raw, ck] => do
+    let s ← str raw
+    let ck ← boolOf ck
+    let h (x : List Nat) : String := hex x
+    match chainKind (← str chain) with
+    | some .tron => pure (d, if Addr.tronValid s then s!"ok {h (Addr.tronHex s)} {h (Addr.tronAcc s)}" else "invalid")
+    | some .eth => pure (d, if isEthAddr s && ck then s!"ok {h (Addr.ethHex s)} {h (Addr.ethHex s)}" else "invalid")
+    | _ => pure (d, "invalid")
   | ["akey", n, h] => do
     -- `types.GetAttestationKey(n, h)`: the regenerated layout interpreted by the model
     pure (d, hex (keyBytes (← n.toNat?) (← unhex h) FxVerif.Gen.C03.attestationKeyParts))
